@@ -144,8 +144,28 @@ func worldC05(w *World) {
 		}
 		return 0, nil
 	}
+	// fault: the proxy answers the first upload attempt with a 503 while the response is
+	// still being streamed (the retry must replay what was sent and keep streaming)
+	// (only while the prefix sent so far is still replayable: first chunk well below 4 KiB)
+	early503 := t.Rare(1, 4, "early503") && chunks[0] <= 3000
+	htmlType := !banner && t.Rare(1, 3, "htmltype")
 	var mu sync.Mutex
 	sc := &streamCounter{}
+	fp.OnUpload = func(_ string, attempt int, rw http.ResponseWriter, r *http.Request) bool {
+		mu.Lock()
+		*sc = streamCounter{}
+		mu.Unlock()
+		if early503 && attempt == 0 {
+			w.K.Count("fault.upload_503_while_streaming")
+			// wait for the first body bytes, then refuse
+			buf := make([]byte, 512)
+			r.Body.Read(buf)
+			rw.Header().Set("Connection", "close")
+			http.Error(rw, "injected", 503)
+			return true
+		}
+		return false
+	}
 	seen := make(chan int, 100000)
 	fp.OnChunk = func(_ string, _ int, piece []byte) {
 		mu.Lock()
@@ -170,7 +190,11 @@ func worldC05(w *World) {
 			panic(err)
 		}
 		http.Serve(l, http.HandlerFunc(func(rw http.ResponseWriter, r *http.Request) {
-			rw.Header().Set("Content-Type", "application/octet-stream")
+			if htmlType {
+				rw.Header().Set("Content-Type", "text/html; charset=utf-8")
+			} else {
+				rw.Header().Set("Content-Type", "application/octet-stream")
+			}
 			if declareLength {
 				rw.Header().Set("Content-Length", fmt.Sprint(total))
 			}
@@ -214,7 +238,8 @@ func worldC05(w *World) {
 		for {
 			time.Sleep(time.Second)
 			fp.mu.Lock()
-			done := len(fp.Uploads[id]) > 0 && fp.Uploads[id][0].Status != 0
+			ups := fp.Uploads[id]
+			done := len(ups) > 0 && ups[len(ups)-1].Status != 0
 			fp.mu.Unlock()
 			if done {
 				break
@@ -242,12 +267,19 @@ func worldC05(w *World) {
 			return
 		}
 		ups := fp.Uploads[id]
-		if len(ups) == 0 || !ups[0].Complete || ups[0].ParseErr != "" {
-			w.Violation("streaming", "the upload did not complete cleanly: %+v", ups)
+		last := (*Upload)(nil)
+		if len(ups) > 0 {
+			last = ups[len(ups)-1]
+		}
+		if last == nil || !last.Complete || last.ParseErr != "" {
+			w.Violation("streaming", "the upload did not complete cleanly | attempts %d", len(ups))
 			return
 		}
-		if len(ups[0].RespBody) != total {
-			w.Violation("streaming", "uploaded body has %d bytes, backend sent %d", len(ups[0].RespBody), total)
+		if len(last.RespBody) != total && !shim {
+			w.Violation("streaming", "uploaded body has %d bytes, backend sent %d", len(last.RespBody), total)
+		}
+		if early503 {
+			w.Probe("retry_while_streaming")
 		}
 		if total > w.K.SendBuf {
 			w.Probe("body_larger_than_buffers")
